@@ -25,6 +25,10 @@ type Case struct {
 	// literal was generated; QKind says how it was written
 	Day   *Day   `json:"day,omitempty"`
 	QKind string `json:"query_kind,omitempty"`
+	// date: timezone of the environment the query is PARSED in when it differs from the environment it
+	// is evaluated in (hosts parse group queries once, with their default environment, and evaluate
+	// them with each session's environment); "" = the same environment
+	ParsedIn string `json:"parsed_in,omitempty"`
 	// bool, simplify
 	Atoms []Atom `json:"atoms,omitempty"`
 	Tree  *Tree  `json:"tree,omitempty"`
@@ -280,7 +284,13 @@ func evalSix(cs *Case, o *obs, quote bool) sixResult {
 	nAdmitted := 0
 	for _, op := range cmpOps {
 		text := cs.Prop + " " + op + " " + val
-		p := parse(cs.Env, env, text)
+		pspec, penv := cs.Env, env
+		if cs.ParsedIn != "" {
+			pspec.TZ = cs.ParsedIn
+			penv = pspec.build()
+			o.fact("date:parsed-in-another-environment")
+		}
+		p := parse(pspec, penv, text)
 		sub := *cs
 		sub.Query = text
 		if p.pnc != "" {
